@@ -31,16 +31,48 @@ pub fn check_stream(v: &(Stream, u32), rep: &mut Rep) -> Result<(), String> {
     rep.nontrivial = (n >= 2 && enc.garbage_runs >= 1) || big;
 
     let mut it = DltMessageIterator::new(*start, std::io::Cursor::new(&enc.bytes[..]));
+    // the production callers attach a logger (extra bookkeeping of skipped bytes runs only then)
+    let logger = slog::Logger::root(slog::Discard, slog::o!());
+    let with_logger = start % 2 == 1;
+    if with_logger {
+        it.log = Some(&logger);
+    }
+    rep.label_if(with_logger, "with_logger");
     let mut got = vec![];
-    for m in it.by_ref() {
+    // counters are read by callers while iterating: after message i everything up to its end is accounted for
+    let mut garbage_before = 0usize;
+    let mut prev_end = 0usize;
+    while let Some(m) = it.next() {
+        let i = got.len();
         got.push(m);
         ensure!(got.len() <= n, "more messages than in the stream ({} > {})", got.len(), n);
+        let (off, w) = &enc.msgs[i];
+        garbage_before += off - prev_end;
+        prev_end = off + w.encoded_len(stream.serial);
+        ensure_eq!(it.bytes_processed, prev_end, "bytes_processed after message #{}", i);
+        ensure_eq!(it.bytes_skipped, garbage_before, "bytes_skipped after message #{}", i);
     }
     ensure_eq!(got.len(), n, "number of messages");
     for (i, (g, (_off, w))) in got.iter().zip(enc.msgs.iter()).enumerate() {
-        let exp = w.expected(start.wrapping_add(i as u32), stream.serial);
+        let mut exp = w.expected(start.wrapping_add(i as u32), stream.serial);
+        if stream.serial {
+            // a serial frame carries no reception time and (without WEID) no ECU id: what the reader fills in is its choice
+            exp.reception_time_us = g.reception_time_us;
+            if w.htyp & HTYP_WEID == 0 {
+                exp.ecu = g.ecu;
+            }
+        }
         if *g != exp {
             return Err(format!("message #{} differs: got {:?} expected {:?}", i, short(g), short(&exp)));
+        }
+        // ids byte for byte (DltChar4 equality could hide a normalisation done on both sides)
+        if w.htyp & HTYP_WEID != 0 {
+            ensure!(g.ecu.as_buf() == &w.ecu, "message #{}: ECU id bytes {:02x?} != {:02x?}", i, g.ecu.as_buf(), w.ecu);
+        } else if !stream.serial {
+            ensure!(g.ecu.as_buf() == &w.storage_ecu, "message #{}: storage header ECU id bytes {:02x?} != {:02x?}", i, g.ecu.as_buf(), w.storage_ecu);
+        }
+        if let Some(eh) = &g.extended_header {
+            ensure!(eh.apid.as_buf() == &w.ext.2 && eh.ctid.as_buf() == &w.ext.3, "message #{}: APID/CTID bytes differ from the stream", i);
         }
     }
     ensure_eq!(it.index, start.wrapping_add(n as u32), "iterator index after exhaustion");
@@ -86,7 +118,7 @@ pub fn def(tier: Tier) -> PropertyDef {
             (stream(20, false, 300), start.clone()),
             check_stream,
         )
-        .rates(&[("serial", 0.3), ("storage", 0.3), ("has_garbage", 0.3), ("trailing_garbage", 0.1)])
+        .rates(&[("serial", 0.3), ("storage", 0.3), ("has_garbage", 0.3), ("trailing_garbage", 0.1), ("with_logger", 0.2), ("serial_first_msg_in_last_19_bytes", 0.0005)])
         .boxed(),
         sub(
             "framing_huge",
